@@ -335,6 +335,20 @@ impl<K: Hash + Eq, V, FH: BuildHasher, RH: BuildHasher> SegmentedCache<K, V, FH,
     }
 }
 
+/// Verification hooks (feature `verif-hooks`): read-only views of the two segments.
+#[cfg(feature = "verif-hooks")]
+impl<K, V, FH, RH> SegmentedCache<K, V, FH, RH> {
+    /// The probationary segment.
+    pub fn verif_probationary(&self) -> &RawLRU<K, V, DefaultEvictCallback, RH> {
+        &self.probationary
+    }
+
+    /// The protected segment.
+    pub fn verif_protected(&self) -> &RawLRU<K, V, DefaultEvictCallback, FH> {
+        &self.protected
+    }
+}
+
 impl<K: Hash + Eq, V, FH: BuildHasher, RH: BuildHasher> Cache<K, V>
     for SegmentedCache<K, V, FH, RH>
 {
